@@ -376,6 +376,10 @@ class Interp:
             raise Unsupported("bitwise not on symbolic integers")
         return _ew1(P.b_not, v[0])
 
+    def p_one_minus_square(self, eqn, v):
+        """1 - x**2 (used by JAX for the derivative of tanh)"""
+        return _ew1(lambda p: P.ONE - p * p, v[0])
+
     def p_unstack(self, eqn, v):
         """tuple unpacking of an array (`a, b = arr`): one output per index along `axis`"""
         a = to_obj(v[0]) if not is_sym(v[0]) else v[0]
